@@ -114,6 +114,7 @@ def run_history(ctx, case):
     tmpdir = None
     initialized = False
     pareto_done = False
+    cut_short = False
     try:
         for step, op in enumerate(ops):
             name = op[0]
@@ -141,7 +142,10 @@ def run_history(ctx, case):
                 if name in ("another", "var") and not have_model:
                     continue  # documented precondition: first call solve()
                 if name == "solve":
-                    res = solver.solve()
+                    with env.collect_prints() as printed:
+                        res = solver.solve()
+                        if any(a and isinstance(a[0], str) and ("Max time" in a[0] or ("Reason:" in a[0] and "Unsatisfiable" not in a[0])) for a in printed):
+                            cut_short = True  # the optimiser left its loop on its (real-clock) time limit or on a z3 'unknown'
                     initialized = True
                 elif name == "another":
                     exclusions.append(("timing", cur_proj))
@@ -183,7 +187,7 @@ def run_history(ctx, case):
             if c12.consistent(nproj, [e[:3] for e in exclusions if e[0] == "timing" or not e[3]]) is False:
                 viol("returned_schedule_ignores_an_earlier_request", {"call": name, "projection": list(nproj)}, step)
                 return
-            if name == "solve" and single_opt and not exclusions and kw.get("optimizer") != "optimize" and "max_iter" not in kw:
+            if name == "solve" and single_opt and not exclusions and kw.get("optimizer") != "optimize" and "max_iter" not in kw and not cut_short:
                 # (the built-in z3 optimiser is not judged for optimality: it returns non-optimal models, DESIGN.md section 5)
                 val = objective_value(h)
                 if optimum is None:
